@@ -832,9 +832,22 @@ func init() {
 		if x.Thorough() {
 			wordCounts = append(wordCounts, 65534, 65535)
 		}
+		// blocks of 2^14 words and more (>= 65536 bytes) also in the quick tier, two-byte and legacy
+		// forms only (cheap to walk): the byte length of such a block does not fit 16 bits
+		// (seeds C01-r2-1 / C03-r2-1)
+		type wf struct{ words, form int }
+		var plan []wf
 		for _, words := range wordCounts {
 			for form := 1; form <= 3; form++ {
-				words, form := words, form
+				plan = append(plan, wf{words, form})
+			}
+		}
+		for _, words := range []int{16384, 16385, 40000} {
+			plan = append(plan, wf{words, 2}, wf{words, 3})
+		}
+		for _, pl := range plan {
+			{
+				words, form := pl.words, pl.form
 				emit(func(c *Case) *WireDesc {
 					w := genWire(c.R, 8, false)
 					n := words * 4
